@@ -249,6 +249,54 @@ fn materialise(c: &Case) -> Vec<u8> {
 
 // ------------------------------------------------------------------------------------------------ running a loader
 
+/// The file name as a dimension of Buffer::from_bytes: `{e}` is the target's extension as listed, `{E}` upper case, `{M}` mixed
+/// case. 0 is the default. Names without extension, without stem, with a directory part that carries the extension, with a
+/// trailing dot, non-ASCII and (index 255) non-UTF-8 extensions fall through to the ANSI loader or select by the LAST extension.
+const FILE_NAMES: [&str; 24] = [
+    "c02.{e}",
+    "c02.{E}",
+    "c02.{M}",
+    "README",
+    ".{e}",
+    "pic.{e}.bak",
+    "pic.bak.{e}",
+    "dir.xb/pic.{e}",
+    "dir.{e}/README",
+    "pic.\u{e4}n\u{15b}",
+    "",
+    "pic.nfo",
+    "pic.txt",
+    "pic.x",
+    "pic.",
+    "..",
+    "pic.{e} ",
+    "c02.{e}/",
+    "/",
+    "pic.{e}.",
+    " .{e}",
+    "pic.{e}\u{e9}",
+    "\u{1F600}.{e}",
+    "a/b.c/d.{M}",
+];
+
+fn file_name_of(c: &Case) -> u8 {
+    c.muts.iter().rev().find_map(|m| if let Mut::FileName(i) = m { Some(*i) } else { None }).unwrap_or(0)
+}
+
+fn path_of(t: &Target, fname: u8) -> std::path::PathBuf {
+    if fname == 255 {
+        // an extension that is not UTF-8
+        use std::os::unix::ffi::OsStrExt;
+        let mut b = b"pic.".to_vec();
+        b.extend_from_slice(&[0xFF, 0xFE, b'a']);
+        return std::path::PathBuf::from(std::ffi::OsStr::from_bytes(&b));
+    }
+    let e = t.file_ext;
+    let mixed: String = e.chars().enumerate().map(|(i, ch)| if i % 2 == 0 { ch.to_ascii_uppercase() } else { ch.to_ascii_lowercase() }).collect();
+    let name = FILE_NAMES[fname as usize % FILE_NAMES.len()].replace("{e}", e).replace("{E}", &e.to_ascii_uppercase()).replace("{M}", &mixed);
+    std::path::PathBuf::from(name)
+}
+
 struct Outcome {
     /// None = Ok(..)
     err: Option<String>,
@@ -256,7 +304,7 @@ struct Outcome {
     substantial: bool,
 }
 
-fn run(t: &Target, bytes: &[u8]) -> Outcome {
+fn run(t: &Target, bytes: &[u8], fname: u8) -> Outcome {
     fn of<T>(r: Result<T, impl std::fmt::Display>, substantial: impl FnOnce(&T) -> bool) -> Outcome {
         match r {
             Ok(v) => Outcome { err: None, substantial: substantial(&v) },
@@ -264,7 +312,7 @@ fn run(t: &Target, bytes: &[u8]) -> Outcome {
         }
     }
     match t.kind {
-        Kind::Ext => of(Buffer::from_bytes(Path::new(&format!("c02.{}", t.file_ext)), true, bytes), |b| !b.layers.is_empty()),
+        Kind::Ext => of(Buffer::from_bytes(&path_of(t, fname), true, bytes), |b| !b.layers.is_empty()),
         Kind::Sauce => of(SauceData::extract(bytes), |s| s.is_some()),
         Kind::Font => of(BitFont::from_bytes("c02", bytes), |_| true),
         Kind::Tdf => of(TheDrawFont::from_tdf_bytes(bytes), |v| !v.is_empty()),
@@ -305,7 +353,7 @@ fn early_error(t: &Target, e: &str) -> bool {
 }
 
 /// Did the loader get past its magic / length check?
-fn nontrivial(t: &Target, bytes: &[u8], out: &Outcome) -> (bool, &'static str) {
+fn nontrivial(t: &Target, bytes: &[u8], out: &Outcome, fname: u8) -> (bool, &'static str) {
     match &out.err {
         None => {
             let nt = match t.family {
@@ -330,7 +378,7 @@ fn nontrivial(t: &Target, bytes: &[u8], out: &Outcome) -> (bool, &'static str) {
             // compare with the result for the header alone: the same error means the rest of the file was never looked at
             if t.header > 0 {
                 let head = &bytes[..t.header.min(bytes.len())];
-                if let Ok(h) = icyv::panics::guarded(|| run(t, head)) {
+                if let Ok(h) = icyv::panics::guarded(|| run(t, head, fname)) {
                     if h.err.as_deref().map(strip_digits) == Some(strip_digits(e)) {
                         return (false, "err_early");
                     }
@@ -376,11 +424,12 @@ fn check(c: &Case) -> Verdict {
         let _ = std::fs::write(format!("{path}.txt"), d);
     }
     // Ok(_) and Err(_) are both fine; a panic is a violation keyed by its panic signature, an abort kills the worker
-    let out = match icyv::panics::guarded(|| run(t, &bytes)) {
+    let fname = file_name_of(c);
+    let out = match icyv::panics::guarded(|| run(t, &bytes, fname)) {
         Ok(o) => o,
-        Err((sig, msg)) => return Verdict::fail(stable_key(&sig), format!("{} [{} bytes as {}]", msg.chars().take(300).collect::<String>(), bytes.len(), t.name)),
+        Err((sig, msg)) => return Verdict::fail(stable_key(&sig), format!("{} [{} bytes as {}, file name {:?}]", msg.chars().take(300).collect::<String>(), bytes.len(), t.name, path_of(t, fname))),
     };
-    let (nt, class) = nontrivial(t, &bytes, &out);
+    let (nt, class) = nontrivial(t, &bytes, &out, fname);
     // an2..an9 are one alias list of the Renegade loader: one histogram row
     let label = if t.name.len() == 3 && t.name.starts_with("an") && t.name != "an1" && t.name != "ans" { "an2-9" } else { t.name };
     Verdict::pass(nt, format!("{label}:{class}"))
@@ -456,7 +505,7 @@ fn minimize(c: &Case) -> Vec<Case> {
                 }
             }
         }
-        Src::Raw(b) if c.muts.is_empty() => {
+        Src::Raw(b) if c.muts.iter().all(|m| matches!(m, Mut::FileName(_))) => {
             out.extend(icyv::util::bytes_candidates(b).into_iter().map(|d| Case { src: Src::Raw(Bytes(d)), ..c.clone() }));
         }
         _ => {
@@ -469,7 +518,8 @@ fn minimize(c: &Case) -> Vec<Case> {
             } else {
                 let bytes = materialise(c);
                 if bytes.len() <= 1200 && t.group != G_ICY {
-                    out.push(Case { src: Src::Raw(Bytes(bytes)), inner: vec![], muts: vec![], ..c.clone() });
+                    let name: Vec<Mut> = c.muts.iter().filter(|m| matches!(m, Mut::FileName(_))).cloned().collect();
+                    out.push(Case { src: Src::Raw(Bytes(bytes)), inner: vec![], muts: name, ..c.clone() });
                 }
             }
         }
@@ -709,7 +759,20 @@ fn target_cases(ti: usize) -> BoxedStrategy<Case> {
                 .boxed(),
         ));
     }
-    proptest::strategy::Union::new_weighted(opts).boxed()
+    let all = proptest::strategy::Union::new_weighted(opts);
+    if t.kind == Kind::Ext {
+        // the file name is a dimension of Buffer::from_bytes: one case in eight is loaded under another spelling
+        (all, prop::option::weighted(0.125, prop_oneof![8 => 1u8..FILE_NAMES.len() as u8, 1 => Just(255u8)]))
+            .prop_map(|(mut c, name)| {
+                if let Some(i) = name {
+                    c.muts.push(Mut::FileName(i));
+                }
+                c
+            })
+            .boxed()
+    } else {
+        all.boxed()
+    }
 }
 
 fn family_cases(f: Family) -> BoxedStrategy<Case> {
@@ -723,6 +786,20 @@ fn family_cases(f: Family) -> BoxedStrategy<Case> {
 /// known-field extreme of every golden file, for one representative extension per loader and for every API
 fn systematic(thorough: bool) -> Vec<Case> {
     let mut out = Vec::new();
+    // the file-name table: every spelling x every extension target x {golden file, short text, empty file}
+    for (ti, t) in TARGETS.iter().enumerate() {
+        if t.kind != Kind::Ext {
+            continue;
+        }
+        for name in (1..FILE_NAMES.len() as u8).chain([255u8]) {
+            let m = vec![Mut::FileName(name)];
+            if !group(t.group).is_empty() {
+                out.push(Case { target: ti as u8, src: Src::Golden(0), inner: vec![], muts: m.clone() });
+            }
+            out.push(Case { target: ti as u8, src: Src::Raw(Bytes(b"hello \x1b[1;31mworld\r\n".to_vec())), inner: vec![], muts: m.clone() });
+            out.push(Case { target: ti as u8, src: Src::Raw(Bytes(vec![])), inner: vec![], muts: m });
+        }
+    }
     pairs::pair_cases(thorough, &mut out);
     pairs::csi_cases(thorough, &mut out);
     let mut seen_groups = Vec::new();
@@ -1129,7 +1206,11 @@ fn main() {
          every 1-byte file per loader and every 2-byte file for seq/ata; the text-field table: valid files generated around a text of length {0,1,127..130,255..258,1000,70000} x alphabet \
          {ASCII, 2-, 3-, 4-byte UTF-8, control characters, separators, mixed} x alignment 0..3 in every text-carrying position (palette title/author/description/colour name/free lines of the five \
          formats, .icy PALETTE / layer title / font name / SAUCE record, SAUCE title/author/group/comments/font name behind content, TDF font name, OSC 8/0/2/4, APS and DCS strings with and without BOM); \
-         a share of every generated part draws from the same construction. \
+         a share of every generated part draws from the same construction. The file NAME is a dimension of Buffer::from_bytes: lower / upper / mixed case, no extension, no stem, double \
+         extensions, a directory part with extension, trailing dot / space / slash, unknown, non-ASCII and non-UTF-8 extensions, the empty name (table x every extension target; one generated buffer case in eight). \
+         Pairs (every truncation 0..=header+8 x every size/offset/count field in {0,1,len-1,len,len+1, len relative to the field}) for PSF1/PSF2 (direct, CTerm:Font DCS in .ans, FONT_ record in .icy), \
+         ICED / FONT_ / LAYER_ records, XBin, iCE Draw, TheDraw fonts (first and second font of a bundle), SAUCE comment count x bytes in front of the record (direct, .ans, .bin, .icy), sixel raster attributes; \
+         CSI table for ANSI-family files: prefix {none, 90 LF, text + margins} x final 0x40..0x7E x 8 intermediates x parameter lists (length <= 2) over {0,1,25,65536,2147483599,2147483647}, REP capped at 9999. \
          Non-trivial: the loader got past its magic / minimum-length check: it returned Ok with content (a buffer from non-empty input; for IcyDraw a document with layers; Some(sauce); >= 1 colour), \
          or it returned an error that is not one of the magic/length errors and differs from the error for the header bytes alone. Distinct by hash of the case.",
     );
@@ -1138,7 +1219,7 @@ fn main() {
     } else {
         eng.assume("release profile semantics (overflow-checks off, debug-assertions off), as a user of the shipped crate sees it");
     }
-    eng.assume("file names always carry an extension (Buffer::from_bytes unwraps it); PaletteFormat::Ase is not a loader (todo!() for every input) and is not called");
+    eng.assume("PaletteFormat::Ase is not a loader (todo!() for every input) and is not called");
     eng.assume("hangs and memory growth are C03's subject: timeouts and heap-cap hits (512 MiB per file, e.g. an IcyDraw layer record with width 0x7FFFFFFF or a cursor movement by 2^31 rows) are counted as inconclusive, not as violations (heapcap_is_violation(false) on every part); numbers in generated terminal streams are capped at 999 so that cursor movement cannot allocate gigabytes of rows; sixel decode threads are given the time parse_with_parser gives them");
     let thorough = eng.is_thorough();
     let worker = std::env::var("ICYV_WORKER").is_ok();
